@@ -23,9 +23,10 @@ result is diagnosed from the array the object actually used:
                                           interpolation-side-after-envgen-side>
   otherwise -> C19/object-reuse/<side>-wrong
 
-Exceptions raised by the change methods themselves (e.g. curverange ->
-bi.lincurve) are counted, not judged: the statement is about encodings and
-evaluation of envelope objects, not about the mapping functions.
+A change method that raises inside its documented domain (levels with min <
+max, lo < hi, lo > 0 for exprange, positive total duration) is reported as
+C19/derived-envelope-raises/<method>/<exception>/<site>: the derived envelope,
+whose encoding and evaluation the property is about, cannot be obtained.
 """
 
 import copy
@@ -48,7 +49,7 @@ def gen_history(rng, nseg):
             'envgen', 'ienvgen']
     changes = ['duration', 'range', 'exprange', 'curverange', 'copy',
                'assign-release_node', 'assign-loop_node', 'assign-times',
-               'assign-levels', 'assign-curves']
+               'assign-levels', 'assign-curves', 'assign-offset']
     out = []
     for _ in range(n):
         if rng.random() < 0.62:
@@ -264,6 +265,8 @@ def run_reuse(spec, acc):
                     elif attr == 'times':
                         val = [G.gen_dur(rng, a['dyadic']) or 1
                                for _ in range(n)]
+                    elif attr == 'offset':
+                        val = rng.choice([0, 1, 0.5, -2.0])
                     elif attr == 'levels':
                         val = [G.gen_level(rng, 'any') for _ in range(n + 1)]
                     else:
@@ -279,7 +282,14 @@ def run_reuse(spec, acc):
                         f'{site(e)}', dict(witness, tb=short_tb(e)))
                     failed = True
                 else:
-                    acc.count(f'reuse_change_raised_{step}_{type(e).__name__}')
+                    # a documented public method of the envelope, called
+                    # inside its documented domain, that cannot produce the
+                    # derived / changed envelope at all
+                    acc.violation(
+                        f'C19/derived-envelope-raises/{step}/'
+                        f'{type(e).__name__}/{site(e)}',
+                        dict(witness, tb=short_tb(e)))
+                    failed = True
             if failed:
                 break
         if not failed and acc.want_sample() and len(hist) <= 6 \
